@@ -32,7 +32,7 @@ def walk(x, keep):
         if isinstance(f, str) and f.startswith('^'):
             root = f[1:].split('__')[0]
             if root not in keep and root != 'self':
-                x['f'] = '^' + root + SUF + f[1 + len(root):]
+                x['f'] = '^rn_' + root + f[1 + len(root):]
         for v in x.values():
             walk(v, keep)
     elif isinstance(x, list):
@@ -45,7 +45,7 @@ for c in raw.values():
         keep = ancestor_params(byid.get(b['id'], b)) if b['promoted'] is None else set()
         for i, l in enumerate(b['locals']):
             if i > b['arg_count'] and l.get('name') and l['name'] not in keep and l['name'] != 'self':
-                l['name'] = l['name'] + SUF
+                l['name'] = 'rn_' + l['name']
                 n += 1
         walk(b['blocks'], keep)
 print('renamed %d locals' % n)
